@@ -36,10 +36,14 @@ Definition negative_fields (c : caps) : list string :=
   map fst (filter (fun fv => neg_test (snd fv)) (named c)).
 Definition getf (f : string) (c : caps) : option Z :=
   match find (fun fv => String.eqb (fst fv) f) (named c) with Some fv => Some (snd fv) | None => None end.
-Definition positive_fields (c : caps) (fs : list string) : option bool :=   (* None = KeyError *)
-  fold_right (fun f acc => match getf f c, acc with
-                           | Some v, Some r => Some (negb (pos_reject v) && r)
-                           | _, _ => None end) (Some true) fs.
+Fixpoint positive_fields (c : caps) (fs : list string) : option bool :=   (* None = KeyError; stops at the first non-positive field *)
+  match fs with
+  | [] => Some true
+  | f :: r => match getf f c with
+              | None => None
+              | Some v => if pos_reject v then Some false else positive_fields c r
+              end
+  end.
 
 (* -------- printing -------- *)
 Definition kept (c : caps) : list (string * Z) := filter (fun fv => negb (drop_test (snd fv))) (named c).
@@ -74,6 +78,24 @@ Definition to_str (c : caps) : str :=
          S"{ " ++ firstn (List.length body - 2) body ++ S"}"
   end.
 
+(* -------- FreeCapacity beyond its constructor; allocation histories -------- *)
+Definition czero : caps := cap_defaults.                       (* Capacities() *)
+Definition cfree_none (total : caps) : caps := cfree total czero.   (* FreeCapacity(total=t, allocated=None) *)
+Definition free_get (f : string) (total alloc : caps) : option Z := getf f (cfree total alloc).  (* __getattr__ *)
+Definition alloc_all (allocs : list caps) : caps := fold_left cadd allocs czero.   (* acc = Capacities(); acc = acc + x ... *)
+
+(* FreeCapacity.__str__ : "f: free/total unit" for every field unless both are dropped by the generated test *)
+Definition fnamed (total alloc : caps) : list (string * (Z * Z)) := combine cap_fields (combine (cfree total alloc) total).
+Definition fkept (total alloc : caps) : list (string * (Z * Z)) :=
+  filter (fun e => negb (fdrop_test (fst (snd e)) (snd (snd e)))) (fnamed total alloc).
+Definition free_str (total alloc : caps) : str :=
+  match fkept total alloc with
+  | [] => []
+  | l => let body := List.concat (map (fun e => of_string (fst e) ++ S": " ++ commas (fst (snd e)) ++ S"/" ++
+                                       commas (snd (snd e)) ++ S" " ++ unit_of (fst e) ++ S", ") l) in
+         S"{ " ++ firstn (List.length body - 2) body ++ S"}"
+  end.
+
 (* -------- what the harness compares: all observables of a triple -------- *)
 Definition of_s (s : string) : val := VS (of_string s).
 Definition observe3 (a b c : caps) : val :=
@@ -85,7 +107,15 @@ Definition observe3 (a b c : caps) : val :=
        VLZ (cfree a b); VLZ (cadd (cfree a b) b);
        VS (to_json (csub a b)); VS (to_str (csub a b)); VS (to_json a); VS (to_str a);
        VOpt VB (positive_fields (csub a b) cap_fields);
-       VB (constructible a) ].
+       VB (constructible a);
+       VS (free_str a b); VLZ (cfree_none a);
+       VL (map (fun f => VOpt VZ (free_get f a b)) cap_fields);
+       VLZ (alloc_all [a; b; c]); VLZ (alloc_all [c; a; b]);
+       VLZ (cfree (alloc_all [a; b; c]) (alloc_all [b; c]));
+       VLZ (cadd (csub a b) b); VLZ (csub a a);
+       VOpt VB (positive_fields a (firstn 2 cap_fields));
+       VOpt VB (positive_fields a (firstn 1 cap_fields ++ ["no_such_field"%string]));
+       VOpt VB (positive_fields a ("no_such_field"%string :: firstn 1 cap_fields)) ].
 
 Definition check3 (x : (caps * caps * caps) * val) : bool :=
   let '((a, b, c), o) := x in val_eqb (observe3 a b c) o.
